@@ -7,7 +7,8 @@ Then store it as /verif/seeded/<name>/ with the outcome in meta.json.  /repo its
 import json, os, shutil, subprocess, sys, time
 src, prop, name = os.path.abspath(sys.argv[1]), sys.argv[2], sys.argv[3]
 tier = "quick"
-WT = "/tmp/seedeval_repo"
+RECHECK = "--recheck" in sys.argv   # only re-run the check (demo/suite results kept from meta.json)
+WT = os.environ.get("SEED_WT", "/tmp/seedeval_repo")
 V = "/verif"
 def sh(cmd, **kw):
     return subprocess.run(cmd, shell=True, capture_output=True, text=True, **kw)
@@ -18,12 +19,17 @@ r = sh(f"git -C {WT} apply {src}/patch.diff")
 res = {"applies": r.returncode == 0}
 if r.returncode != 0:
     print("PATCH DOES NOT APPLY:", r.stderr[:500]); sys.exit(2)
-d0 = sh(f"cd /tmp && PYTHONPATH=/repo /venv/bin/python {src}/demo.py", timeout=600)
-d1 = sh(f"cd /tmp && PYTHONPATH={WT} /venv/bin/python {src}/demo.py", timeout=600)
-res["demo_passes_on_repo"] = d0.returncode == 0
-res["demo_fails_with_patch"] = d1.returncode != 0
-b = sh(f"XDSL_REPO={WT} {V}/tools/baseline.py", timeout=1800)
-res["suite_passes_with_patch"] = "missing=0" in b.stdout
+if RECHECK:
+    old = json.load(open(os.path.join(src, "meta.json"))).get("confirmed", {})
+    for k in ("demo_passes_on_repo", "demo_fails_with_patch", "suite_passes_with_patch"):
+        res[k] = old.get(k)
+else:
+    d0 = sh(f"cd /tmp && PYTHONPATH=/repo /venv/bin/python {src}/demo.py", timeout=600)
+    d1 = sh(f"cd /tmp && PYTHONPATH={WT} /venv/bin/python {src}/demo.py", timeout=600)
+    res["demo_passes_on_repo"] = d0.returncode == 0
+    res["demo_fails_with_patch"] = d1.returncode != 0
+    b = sh(f"XDSL_REPO={WT} {V}/tools/baseline.py", timeout=1800)
+    res["suite_passes_with_patch"] = "missing=0" in b.stdout
 t0 = time.time()
 c = sh(f"cd {V} && XDSL_REPO={WT} ./check {prop} --tier {tier}", timeout=3600)
 res["check_exit"] = c.returncode
@@ -48,3 +54,4 @@ meta = json.load(open(os.path.join(src, "meta.json"))) if os.path.exists(os.path
 meta.update({"property": prop, "confirmed": res, "ran": [f"demo.py on /repo and on patched worktree", "tools/baseline.py on patched worktree", f"./check {prop} --tier {tier} with XDSL_REPO=patched worktree"]})
 json.dump(meta, open(os.path.join(dst, "meta.json"), "w"), indent=1)
 print(json.dumps(res, indent=1))
+print("SEED", name, "caught=", res["caught"], "demo_ok=", res["demo_passes_on_repo"] and res["demo_fails_with_patch"], "suite_ok=", res["suite_passes_with_patch"])
